@@ -165,8 +165,7 @@ theorem kad_request_roundtrip (type : Nat) (key : List Nat) (ht : type < 2 ^ 31)
     KMessage.decode (encodeKadRequest type key) =
       some { type := Int.ofNat type, clusterLevelRaw := 10, key := key } := by
   rw [encodeKadRequest_eq]
-  apply kad_roundtrip
-  refine ⟨⟨by simp, by simp; omega⟩, hk, trivial, ?_, ?_, (by show okI32 10; decide)⟩ <;> intro a ha <;> cases ha
+  exact kad_roundtrip _ (kadRequest_wf type key ht hk)
 
 example : encodeKadRequest 4 [1, 2] = [0x08, 0x04, 0x12, 0x02, 0x01, 0x02, 0x50, 0x0a] := by decide
 
